@@ -210,6 +210,31 @@ def run(ctx):
             seen.add(bad)
             rp = vlib.save_replay(ctx, bad.replace(":", "_"), dict(family="throttle", property=prop, clause=bad, run=wr))
             violations.append(dict(key=bad, replay=rp, what=json.dumps({k: wr[k] for k in ("fps", "bucket_frames", "frames_stored", "throttle_events")})))
+    # ---- runMain with the throttle on and no refill within the run: Processor.tla x throttle composition (SystemTrace.tla)
+    probe = fam_e2e.thr_probe_runs(ctx, binp)
+    for v in fam_e2e.judge_c11(ctx, probe, binp):
+        k = v["key"]
+        if "thr-budget-exceeded" in k:
+            key = "C05:e2e-budget-exceeded"
+        elif "thr-start-without-full-clip" in k:
+            key = "C06:e2e-start-without-full-clip"
+        elif "motion-files-differ" in k:
+            key = "C06:e2e-files-differ-from-throttle-model"
+        elif "daemon-crashed" in k:
+            key = prop + ":e2e-daemon-crashed"
+        else:
+            others[k] = others.get(k, 0) + 1
+            continue
+        if key.startswith(prop + ":") and key not in seen:
+            seen.add(key)
+            violations.append(dict(v, key=key))
+    refill = fam_e2e.thr_refill_runs(ctx, binp) if prop == "C05" else []
+    for wr in refill:
+        bad = "C05:e2e-refill-budget-exceeded"
+        if wr["frames_stored"] > wr["bound"] and bad not in seen:
+            seen.add(bad)
+            rp = vlib.save_replay(ctx, bad.replace(":", "_"), dict(family="throttle", property=prop, clause=bad, run=wr))
+            violations.append(dict(key=bad, replay=rp, what=json.dumps({k: wr[k] for k in ("fps", "bucket_frames", "frames_stored", "elapsed_s", "bound")})))
     try:
         rej, acc = conform(ctx, trace)
     except vlib.Infra as e:
@@ -237,6 +262,11 @@ def run(ctx):
                     rule="transition cover of ThrReplay + seeded schedules (idle-then-burst, churn at the refill boundary, start "
                          "failures) + real MotionProcessor in front; distinct by (cfg, steps)",
                     conformance=conf, clauses_of_other_properties_fired=others,
+                    e2e_throttle_probe_runs=[dict(settings={k: r["settings"][k] for k in ("min", "max", "preview", "bucket")}, fps=r["fps"],
+                                                  trigger_frames=r["settings"]["motion"]["trigger-frames"],
+                                                  files=[len(f.get("ids", [])) for f in r["result"]["files"] if f["kind"] == "final"])
+                                             for r in probe if r["kind"] == "predict"],
+                    e2e_refill_runs=[{k: wr[k] for k in ("fps", "bucket_frames", "frames_stored", "elapsed_s", "bound")} for wr in refill],
                     main_wiring_runs=[{k: wr[k] for k in ("fps", "bucket_frames", "frames_sent", "frames_stored", "throttle_events")} for wr in wiring])
     return vlib.finish(ctx, violations, coverage, ASSUME)
 
